@@ -120,8 +120,8 @@ theorem c11_failed_sync_keeps_serving_config (env : Env) (c c' : CI) (o : Obj) (
 theorem c11_no_panic (env : Env) (c : CI) (o : Obj) (ord : List Str) (hI : Inv env c)
     (hs : ∀ s ∈ o.schemas, safe s)
     (hg : ∀ g, (g = env.defaultGates ∨ ∃ v, env.setGates v = some g) → (alookup strGlobalRateLimiter g).isSome = true) :
-    (∀ g, c.gates = g → True) → sync env c o ord ≠ .crash := by
-  intro _ hcr
+    sync env c o ord ≠ .crash := by
+  intro hcr
   unfold sync at hcr
   by_cases hn : c.cluster ≠ env.lower o.name
   · rw [if_pos hn] at hcr; cases hcr
@@ -167,5 +167,189 @@ theorem c11_no_panic (env : Env) (c : CI) (o : Obj) (ord : List Str) (hI : Inv e
             cases h5 : syncSecureServing env c4 o.secureServing with
             | error e => rw [h5] at hcr; cases hcr
             | ok c5 => rw [h5] at hcr; cases hcr
+
+/-! ## the controller -/
+
+/-- every delivery that is not asked to be requeued leaves its cluster settled on the lister's CURRENT object —
+    however old the queue item is (a re-delivered, superseded event re-applies the current object), whatever was
+    applied, refused or half-applied before -/
+theorem c11_delivery_applies_listers_object (env : Env) (conn : Conn) (hl : LowerIdem env) (st st' : Ctl) (X : Str)
+    (ord : List Str) (hI : CInv env conn st) (hX : env.lower X = X)
+    (h : syncUpstreamCluster env conn st X ord = .done st') :
+    SettledAt env conn st' X ∧ CInv env conn st' := by
+  have := handler_spec (conn := conn) hl ord hI hX
+  rw [h] at this
+  exact ⟨this.2, this.1.1⟩
+
+/-- **C11 (controller)**: for EVERY sequence of API writes and deletes of any clusters (with overlapping, moving,
+    conflicting server names) and queue deliveries in ANY order — refused and failed deliveries stay pending and are
+    delivered again whenever, long after newer versions were applied — as long as the gateway is alive: every cluster
+    for which nothing is pending is exactly what its latest object prescribes and observes the same as a freshly
+    created `ClusterInfo` given only that object (which creation succeeds); a cluster whose object is gone is not
+    served.  Deletion followed by re-creation is one instance. -/
+theorem c11_controller (env : Env) (conn : Conn) (hl : LowerIdem env) (ops : List COp) (st : Ctl)
+    (hv : ∀ op ∈ ops, ValidOp env op) (hrun : Ctl.run env conn (some Ctl.init) ops = some st)
+    (n : Str) (hn : env.lower n = n) (hpend : n ∉ st.queue) :
+    match alookup n st.lister with
+    | none => ∀ (id : Nat) (ci : CI), st.get env n = some (id, ci) → ci.cluster ≠ n
+    | some o => ∃ id ci, st.get env n = some (id, ci) ∧ ci.cluster = n ∧
+        observe env ci = expected env conn o ∧
+        ∀ ord', ∃ f, fresh env conn o ord' = .ok f ∧ observe env f = observe env ci := by
+  have hA := run_inv hl ops Ctl.init st (AllInv_init env conn) hv hrun
+  have hs : SettledAt env conn st n := by
+    cases hA.settled n hn with
+    | inl h => exact absurd h hpend
+    | inr h => exact h
+  unfold SettledAt at hs
+  rw [get_eq, hn]
+  exact hs
+
+/-- **C11 (controller, server names)**: under the same hypotheses, the hosts that resolve to a settled cluster are
+    exactly the (lower-cased) server names of its latest object: its own name and its current `serverNames`.
+    (Before fix ddabea4 this was false: a `Sync` failing in `syncEndpoints` had already installed the new names.) -/
+theorem c11_controller_names (env : Env) (conn : Conn) (hl : LowerIdem env) (ops : List COp) (st : Ctl)
+    (hv : ∀ op ∈ ops, ValidOp env op) (hrun : Ctl.run env conn (some Ctl.init) ops = some st)
+    (n : Str) (hn : env.lower n = n) (hpend : n ∉ st.queue) (o : Obj) (hlis : alookup n st.lister = some o) (h : Str) :
+    (∃ id ci, st.get env h = some (id, ci) ∧ ci.cluster = n) ↔
+    env.lower h ∈ n :: o.secureServing.serverNames.map env.lower := by
+  have hA := run_inv hl ops Ctl.init st (AllInv_init env conn) hv hrun
+  have hs : SettledAt env conn st n := by
+    cases hA.settled n hn with
+    | inl h => exact absurd h hpend
+    | inr h => exact h
+  exact names_of_settled hA.cinv hn hlis hs h
+
+/-- … and no host at all resolves to a cluster whose object is gone once nothing is pending for it -/
+theorem c11_controller_deleted (env : Env) (conn : Conn) (hl : LowerIdem env) (ops : List COp) (st : Ctl)
+    (hv : ∀ op ∈ ops, ValidOp env op) (hrun : Ctl.run env conn (some Ctl.init) ops = some st)
+    (n : Str) (hn : env.lower n = n) (hpend : n ∉ st.queue) (hlis : alookup n st.lister = none) (h : Str) :
+    ¬ ∃ id ci, st.get env h = some (id, ci) ∧ ci.cluster = n := by
+  have hA := run_inv hl ops Ctl.init st (AllInv_init env conn) hv hrun
+  have hs : SettledAt env conn st n := by
+    cases hA.settled n hn with
+    | inl h => exact absurd h hpend
+    | inr h => exact h
+  unfold SettledAt at hs
+  rw [hlis] at hs
+  intro hx
+  obtain ⟨id, ci, hg, hc⟩ := hx
+  rw [get_eq] at hg
+  have hr := resolves_some.1 hg
+  have := hA.cinv.namesKeys _ id ci hr.1 hr.2 ci.cluster (cluster_mem_names env ci)
+  rw [hc] at this
+  exact hs id ci (resolves_some.2 ⟨this, hr.2⟩) hc
+
+/-- the model's manager map never points to a `ClusterInfo` that does not exist (`Ctl.get` treats that as "not found";
+    this shows the case never arises), and every `ClusterInfo` of the controller is consistent -/
+theorem c11_controller_wf (env : Env) (conn : Conn) (hl : LowerIdem env) (ops : List COp) (st : Ctl)
+    (hv : ∀ op ∈ ops, ValidOp env op) (hrun : Ctl.run env conn (some Ctl.init) ops = some st) :
+    (∀ (k : Str) (id : Nat), alookup k st.mgr = some id → ∃ ci, st.heap[id]? = some ci ∧ k ∈ loadServerNames env ci) ∧
+    (∀ (id : Nat) (ci : CI), st.heap[id]? = some ci → Inv env ci ∧ ci.conn = conn) := by
+  have hA := run_inv hl ops Ctl.init st (AllInv_init env conn) hv hrun
+  exact ⟨hA.cinv.keysSub, fun id ci h => ⟨(hA.cinv.heapOK id ci h).1, (hA.cinv.heapOK id ci h).2.2⟩⟩
+
+/-! ## effective routing is determined by the observation -/
+
+theorem mem_allEndpoints (c : CI) (ep : Str) : ep ∈ allEndpoints c ↔ (loadEndpoint c ep).isSome = true := by
+  unfold allEndpoints loadEndpoint akeys
+  induction c.eps with
+  | nil => simp [alookup]
+  | cons kv r ih =>
+    obtain ⟨k, v⟩ := kv
+    simp only [List.map_cons, List.mem_cons, alookup]
+    by_cases h : k = ep
+    · simp [h]
+    · simp only [h, if_false, ← ih]
+      constructor
+      · intro x
+        cases x with
+        | inl e => exact absurd e.symm h
+        | inr m => exact m
+      · intro m; exact Or.inr m
+
+/-- two `ClusterInfo`s with the same observation route every request identically: same policy, same flow-control
+    schema and limiter, same logging decision, same set of candidate endpoints (`MatchAttributes`) -/
+theorem c11_routing (env : Env) (a b : CI) (h : observe env a = observe env b) (q : KG.Model.Match.Attrs) :
+    (matchAttributes a q).map (fun p => (p.index, p.flowControlName, p.flowControl, p.enableLog)) =
+      (matchAttributes b q).map (fun p => (p.index, p.flowControlName, p.flowControl, p.enableLog)) ∧
+    ∀ ep, (∃ p, matchAttributes a q = some p ∧ ep ∈ p.upstreams) ↔ (∃ p, matchAttributes b q = some p ∧ ep ∈ p.upstreams) := by
+  have hp : loadPolicies a = loadPolicies b := congrArg Obs.policies h
+  have hlg : loadLogging a = loadLogging b := congrArg Obs.logging h
+  have hfs : getFlowSchema a = getFlowSchema b := congrArg Obs.schemas h
+  have hep : loadEndpoint a = loadEndpoint b := congrArg Obs.endpoints h
+  have hall : ∀ ep, ep ∈ allEndpoints a ↔ ep ∈ allEndpoints b := by
+    intro ep; rw [mem_allEndpoints, mem_allEndpoints, hep]
+  unfold matchAttributes
+  simp only [hp, hlg, hfs]
+  cases KG.Model.Match.matchPolicies q ((loadPolicies b).map (·.rules)) with
+  | none => simp
+  | some i =>
+    simp only
+    cases (loadPolicies b)[i]? with
+    | none => simp
+    | some p =>
+      simp only [Option.map_some, true_and]
+      intro ep
+      by_cases hu : p.upstreamSubset.length ≠ 0
+      · simp [hu]
+      · simp only [hu, if_false]
+        constructor
+        · intro hx; obtain ⟨p', hp', hm⟩ := hx; injection hp' with hp'; subst hp'
+          exact ⟨_, rfl, (hall ep).1 hm⟩
+        · intro hx; obtain ⟨p', hp', hm⟩ := hx; injection hp' with hp'; subst hp'
+          exact ⟨_, rfl, (hall ep).2 hm⟩
+
+/-! ## non-vacuity: the hypotheses are satisfiable by concrete, non-trivial histories -/
+
+section NonVacuous
+
+/-- a concrete instance of the external code: no gate annotation parses, no PEM blob parses, `"x"` is an unusable endpoint -/
+def env0 : Env :=
+  { lower := id, setGates := fun _ => none, defaultGates := [(strGlobalRateLimiter, false)],
+    parseCA := fun _ => none, parsePair := fun c k => if c = k then some c else none, addOK := fun e => e ≠ [120] }
+
+def conn0 : Conn := ⟨strRemote, false⟩
+
+def objA : Obj :=
+  { name := [99], annotations := none, servers := [⟨[104], none⟩, ⟨[105], some true⟩],
+    secureServing := ⟨[7], [7], [], [[97]]⟩,
+    schemas := [⟨[97], false, some 5, none, none, none, []⟩], policies := [], logging := strOn }
+
+/-- same cluster: the schema is retyped, a server dropped, the key removed, a client CA that does not parse added -/
+def objBad : Obj :=
+  { objA with servers := [⟨[104], some true⟩], secureServing := ⟨[], [7], [1], []⟩,
+              schemas := [⟨[97], false, none, some ⟨3, 4⟩, none, none, []⟩] }
+
+/-- and one that can be applied again -/
+def objC : Obj :=
+  { objBad with secureServing := ⟨[], [7], [], [[98]]⟩, servers := [⟨[105], none⟩] }
+
+/-- the middle delivery FAILS (client CA), after feature gates, flow control (schema retyped) and endpoints were already
+    applied: the state it leaves is not the one before it … -/
+example : ∃ s1 e s2, sync env0 (empty env0 conn0 [99]) objA [] = .ok s1 ∧ sync env0 s1 objBad [] = .fail e s2 ∧
+    s2.fcs ≠ s1.fcs ∧ s2.eps ≠ s1.eps ∧ s2.ss = s1.ss := by
+  refine ⟨_, _, _, rfl, rfl, ?_, ?_, rfl⟩ <;> decide
+
+/-- … and the hypotheses of `c11_converge` hold for the history [objA, objBad] followed by objC -/
+example : ∃ s s', runHist env0 (empty env0 conn0 [99]) [⟨objA, []⟩, ⟨objBad, []⟩] = some s ∧
+    sync env0 s objC [] = .ok s' ∧ env0.lower objC.name = env0.lower [99] :=
+  ⟨_, _, rfl, rfl, rfl⟩
+
+/-- controller: objBad is refused first (cluster not yet created: `CreateClusterInfo` fails) and stays queued, objC
+    is written and applied, then the stale item is delivered again: nothing is pending, the hypotheses of
+    `c11_controller` hold, and the cluster is served -/
+example : ∃ st, Ctl.run env0 conn0 (some Ctl.init)
+      [.write objBad, .deliver 0 [], .write objC, .deliver 1 [], .deliver 0 []] = some st ∧
+    (∀ op ∈ [COp.write objBad, .deliver 0 [], .write objC, .deliver 1 [], .deliver 0 []], ValidOp env0 op) ∧
+    [99] ∉ st.queue ∧ (alookup [99] st.lister).isSome = true ∧ (st.get env0 [99]).isSome = true ∧ LowerIdem env0 := by
+  refine ⟨_, rfl, ?_, ?_, ?_, ?_, fun _ => rfl⟩
+  · intro op hop
+    simp only [List.mem_cons, List.mem_nil_iff, or_false] at hop
+    rcases hop with h | h | h | h | h <;> subst h <;> first | rfl | trivial
+  · decide
+  · decide
+  · decide
+
+end NonVacuous
 
 end KG.Props.C11
